@@ -82,3 +82,22 @@ extern "C" void h_keepalive(void) {
     vk_reach("new-keepalive");
   }
 }
+
+// arithmetic for EVERY keep-alive value: both timers right after CONNACK, no time line (no forks on K)
+extern "C" void h_ka_arith(void) {
+  X* x = new X(); W& w = x->w;
+  x->ka = vk_sym_u16(); x->has_ska = vk_choose(2); x->ska = x->has_ska ? vk_sym_u16() : 0;
+  uint32_t K = x->has_ska ? x->ska : x->ka;
+  w.c.keep_alive(x->ka);
+  w.start(); bool ok = w.establish(); vk_assert(ok, "first connection"); x->connack();
+  bool zero = vk_concretize(K == 0);
+  if (zero) {
+    vk_assert(!x->ping_t()->armed || x->ping_t()->max_wait, "ping timer runs although keep-alive is 0");
+    vk_assert(!x->read_t()->armed || x->read_t()->max_wait, "read timeout runs although keep-alive is 0");
+    vk_reach("zero");
+  } else {
+    vk_assert(x->ping_t()->armed && !x->ping_t()->max_wait && x->ping_t()->dur_ns == (int64_t)K * 1000000000LL, "ping timer is not armed with exactly the negotiated keep-alive (some 16-bit value)");
+    vk_assert(x->read_t()->armed && !x->read_t()->max_wait && x->read_t()->dur_ns == (int64_t)K * 1500000000LL, "read timeout is not exactly 1.5 x the negotiated keep-alive (some 16-bit value)");
+    vk_reach(x->has_ska ? "server-keep-alive" : "configured-keep-alive");
+  }
+}
